@@ -55,3 +55,8 @@ def K0(t):
 
 def newest_pv(old_pv, pv):
     return pv if (old_pv.tst.msec == 0 or tst_newer(pv.tst.msec, old_pv.tst.msec)) else old_pv
+
+
+def all_zero_addr(a):
+    """the all-zero GN address (the value a fresh position vector carries)"""
+    return a.m.value == 0 and a.st.value == 0 and a.mid.mid == b'\x00\x00\x00\x00\x00\x00'
